@@ -7,6 +7,7 @@ import json
 import common
 import gen
 import model
+import spec
 
 
 def r_node(n):
@@ -136,6 +137,46 @@ def run(tier, seed):
             ck.case(('calc', tuple(l)), kind='calc_merkle_root_hash')
     except Exception as e:
         ck.disagree('calc_merkle_root_hash raised %r' % (e,), {})
+    # the commitment of real transaction lists, computed in sequences of calls in which consecutive lists differ in ONE
+    # field of one transaction (reward height / data, an output value, a signature, the order) or are edited in place
+    try:
+        import copy
+        import chaingen
+        from skepticoin.datatypes import Transaction
+        for trial in range(30 if tier == 'quick' else 300):
+            n = rng.choice([1, 1, 2, 3, 5])
+            hgt = rng.randrange(1, 1000)
+            base = [chaingen.coinbase(hgt, 10 ** 9, gen.rb(rng, 64), b'd')] + [gen.g_tx(rng, nin=rng.choice([1, 2]), nout=rng.choice([1, 2])) for _ in range(n - 1)]
+            seq = [('base', base)]
+            seq.append(('reward-height', [chaingen.coinbase(hgt + 1, 10 ** 9, base[0].outputs[0].public_key.public_key, b'd')] + base[1:]))
+            seq.append(('reward-data', [chaingen.coinbase(hgt + 1, 10 ** 9, base[0].outputs[0].public_key.public_key, b'e')] + base[1:]))
+            seq.append(('base-again', list(base)))
+            if n >= 2:
+                from skepticoin.datatypes import Output
+                o0 = base[1].outputs[0]
+                t = Transaction(inputs=list(base[1].inputs), outputs=[Output(o0.value + 1, o0.public_key)] + list(base[1].outputs[1:]))
+                seq.append(('output-value', [base[0], t] + base[2:]))
+                seq.append(('dup-last', base + [base[-1]]))
+                seq.append(('reversed-tail', [base[0]] + base[1:][::-1]))
+            inplace = list(base)
+            seq.append(('inplace-before', inplace))
+            for name, txs in seq:
+                ids = [spec.sha256d(t.serialize()) for t in txs]
+                got = C.calc_merkle_root_hash(txs)
+                ck.case(('seq', trial, name), kind='calc-sequence/' + name)
+                if got != MT.get_merkle_root(ids):
+                    ck.violation('validator-root-stale', 'calc_merkle_root_hash on a transaction list (%s, after the calls %s) is '
+                                 'not the commitment of its ids' % (name, [x[0] for x in seq[:[x[0] for x in seq].index(name)]]),
+                                 {'sequence': [[nm, [t.serialize().hex() for t in l_]] for nm, l_ in seq], 'at': name})
+                    break
+                if name == 'inplace-before':
+                    inplace.append(gen.g_tx(rng, nin=1, nout=1))
+                    if C.calc_merkle_root_hash(inplace) != MT.get_merkle_root(ids + [spec.sha256d(inplace[-1].serialize())]):
+                        ck.violation('validator-root-stale-inplace', 'calc_merkle_root_hash after appending to the same list '
+                                     'object is not the commitment of its ids', {'at': 'inplace'})
+    except Exception as e:
+        import traceback
+        ck.disagree('calc_merkle_root_hash sequence probe raised %r' % (e,), {'trace': traceback.format_exc()[-600:]})
     if r.ok:
         outs = model.run_batch(reqs)
         for (what, l, i, want), got in zip(expect, outs):
@@ -165,5 +206,16 @@ def replay(path):
             print('proof ok?', ok)
             rc = 0 if ok else 1
         return rc
+    if 'sequence' in rp:
+        from skepticoin import consensus as C
+        from skepticoin.datatypes import Transaction
+        import spec as S
+        for nm, l_ in rp['sequence']:
+            txs = [Transaction.deserialize(bytes.fromhex(x)) for x in l_]
+            ok = C.calc_merkle_root_hash(txs) == MT.get_merkle_root([S.sha256d(t.serialize()) for t in txs])
+            print(nm, 'commitment matches ids?', ok)
+            if not ok:
+                return 1
+        return 0
     print(json.dumps(d, indent=1))
     return 1
